@@ -5,6 +5,7 @@ package keystore
 import (
 	"bytes"
 	"encoding/binary"
+	"errors"
 	"math/big"
 
 	"github.com/btcsuite/btcd/btcec"
@@ -177,4 +178,36 @@ func VerifC18NewAddressRetry() {
 		}
 	}
 	rt.Reach("end")
+}
+
+// ---- cut: creation of a keystore (entropy, mnemonic, key derivation, encryption and ~30 store calls are the
+// subject of other properties). Contract kept: it either fails and caches nothing, or stores the keystore and
+// caches its address manager under the returned name. When VerifNewKeystoreModel is set the wrapper draws the
+// "creation fails" flag itself (in native replays too) and storage faults are not injected inside the call. ----
+
+var VerifNewKeystoreModel bool
+
+var errVerifNewKeystore = errors.New("verif: keystore creation failed")
+
+func (km *KeystoreManager) NewKeystore(dbTransaction mwdb.DBTransaction, bitSize int, privPassphrase []byte, remarks string,
+	net *config.Params, scryptConfig *ScryptOptions, addressGapLimit uint32) (string, string, error) {
+	if !VerifNewKeystoreModel {
+		return km.NewKeystore__real(dbTransaction, bitSize, privPassphrase, remarks, net, scryptConfig, addressGapLimit)
+	}
+	fail := rt.NondetBool()
+	if s, ok := dbTransaction.(interface{ VerifSuspendFaults(bool) }); ok {
+		s.VerifSuspendFaults(true)
+		defer s.VerifSuspendFaults(false)
+	}
+	if fail {
+		return "", "", errVerifNewKeystore
+	}
+	if !rt.CutActive("newKeystore") {
+		return km.NewKeystore__real(dbTransaction, bitSize, privPassphrase, remarks, net, scryptConfig, addressGapLimit)
+	}
+	km.mu.Lock()
+	defer km.mu.Unlock()
+	name := "ac10cccccccccccccccccccccccccccccccccccccc"
+	km.managedKeystores[name] = &AddrManager{keystoreName: name, version: KeystoreVersionLatest, index: map[uint32]string{}, addrs: map[string]*ManagedAddress{}, acctInfo: &accountInfo{}, branchInfo: &branchInfo{}}
+	return name, "model mnemonic", nil
 }
